@@ -154,6 +154,12 @@ class H5Shim(types.ModuleType):
         disk = self._disk
         disk.sync_closed()
         name = str(name)
+        if name in disk.open_files and mode not in ("x", "w-"):
+            # HDF5 file locking: a file another writer holds cannot be opened
+            raise OSError(
+                11, "Unable to synchronously open file (unable to lock file, "
+                    "errno = 11, error message = 'Resource temporarily "
+                    "unavailable')", name)
         if mode in ("w", "x", "w-"):
             if mode in ("x", "w-") and disk.exists(name):
                 raise FileExistsError(
@@ -272,3 +278,12 @@ def install(disk):
     ptm.os = OsShim(disk)
     ptm.tempfile = TempfileShim(disk)
     return h5py
+
+
+def uninstall():
+    """Give oqupy.process_tensor its real h5py / os / tempfile back."""
+    import h5py
+    import oqupy.process_tensor as ptm
+    ptm.h5py = h5py
+    ptm.os = _os
+    ptm.tempfile = _tempfile
